@@ -24,9 +24,9 @@ func init() {
 		Plan: func(prop, tier string) []Batch {
 			if tier == "thorough" {
 				return []Batch{
-					{Mode: "fail-pos", Count: 60000 * 16, Exhaustive: true, Group: 16},
-					{Mode: "trunc-pos", Count: 20000 * 80, Exhaustive: true, Group: 80},
-					{Mode: "seeded", Count: 600000},
+					{Mode: "fail-pos", Count: 600000 * 16, Exhaustive: true, Group: 16},
+					{Mode: "trunc-pos", Count: 200000 * 80, Exhaustive: true, Group: 80},
+					{Mode: "seeded", Count: 6000000},
 				}
 			}
 			return []Batch{
